@@ -34,6 +34,9 @@ def plan(tier):
     for (b, q) in dtc.PAIRS:
         for (h, w) in dtc.grid(tier, 'pairs'):
             items.append({'kind': 'path', 'biort': b, 'qshift': q, 'h': h, 'w': w, 'jcap': jcap(tier)})
+    for (b, q) in dtc.BIG_PAIRS:
+        for (h, w) in dtc.BIG:
+            items.append({'kind': 'path', 'biort': b, 'qshift': q, 'h': h, 'w': w, 'jcap': jcap(tier)})
     # cheapest first is not needed; longest first balances the pool
     items.sort(key=lambda it: -(it['h'] * it['w'] * it['jcap']))
     return items
